@@ -21,6 +21,86 @@ from rules.C12 import file_parser
 from rules.C01 import check_prefix
 
 
+def root_search_model(ctx, out, rr, rule="C15.root"):
+    """The repository-root search on a small model (engine.casewalk + listmodel + strmodel): started in `/a/b/c`
+    with `.git` / `.hg` directories at chosen places, the function returns the *nearest* ancestor (the start
+    directory included) that has one of the two - whichever of the two it is - and an error when none has.
+    True / False (a violation is recorded) / None when the model cannot follow the code."""
+    from engine import casewalk as CW
+    from engine import listmodel as LM
+    from engine import strmodel as SM
+    std, lm, sm = CW.std_hooks(), LM.hooks(), SM.hooks()
+    v = ctx.inl(rr, skip=lambda cb: False, tag="all-sugar", sugar=True)
+    if v.argc != 1:
+        return None
+    start = "/a/b/c"
+    anc = ["/a/b/c", "/a/b", "/a", "/"]
+    cases = [set(), {"/a/b/c/.git"}, {"/a/.git"}, {"/a/b/.hg"}, {"/a/.hg", "/a/b/.git"}, {"/a/.git", "/a/b/.hg"}, {"/a/b/.git", "/a/b/.hg"},
+             {"/.hg", "/a/b/c/.git"}, {"/a/.hg"}, {"/a/b/c/.hg", "/a/.git"}, {"/a/b/.svn"}]
+    n = 0
+    for dirs in cases:
+        results = set()
+
+        def hook(w, bb, t, argv, env, dirs=dirs):
+            nm = callee_name(t)
+            a0 = w.deref_val(env, argv[0]) if argv else CW.TOP
+            if re.search(r"std::path::Path::ancestors$", nm) and CW.is_const(a0) and isinstance(a0[1], str):
+                p_ = a0[1]
+                out_ = [p_]
+                while p_ != "/":
+                    p_ = p_.rsplit("/", 1)[0] or "/"
+                    out_.append(p_)
+                return LM.itr(tuple(CW.const(x) for x in out_))
+            if re.search(r"std::path::Path::parent$", nm) and CW.is_const(a0) and isinstance(a0[1], str):
+                if a0[1] == "/":
+                    return CW.adt("std::option::Option", "None", 0, [])
+                return CW.adt("std::option::Option", "Some", 1, [("0", CW.const(a0[1].rsplit("/", 1)[0] or "/"))])
+            if re.search(r"std::path::Path::join$|std::path::PathBuf::join$", nm) and len(argv) > 1:
+                a1 = w.deref_val(env, argv[1])
+                if CW.is_const(a0) and CW.is_const(a1) and isinstance(a0[1], str) and isinstance(a1[1], str):
+                    return CW.const(("" if a0[1] == "/" else a0[1]) + "/" + a1[1])
+                return None
+            if re.search(r"std::path::Path::(is_dir|exists|try_exists)$", nm) and CW.is_const(a0):
+                return CW.const(1 if a0[1] in dirs else 0)
+            if re.search(r"std::path::Path::(to_path_buf|as_ref|to_owned)$|PathBuf::(as_path|from)$|Path::new$", nm) and CW.is_const(a0):
+                return a0
+            for hk in (sm, lm, std):
+                r_ = hk(w, bb, t, argv, env)
+                if r_ is not None:
+                    return r_
+            return None
+        w = CW.Walk(ctx, v, [hook], max_states=8000)
+
+        def on_visit(bb, env):
+            tm = v.blocks[bb]["term"]
+            if tm and tm["k"] == "return":
+                r0 = w.deref_val(env, env.get(0, CW.TOP))
+                if r0[0] == "adt" and r0[2] == "Ok":
+                    p0 = w.deref_val(env, w.field(r0, "0"))
+                    results.add(p0[1] if CW.is_const(p0) and isinstance(p0[1], str) else "?")
+                elif r0[0] == "adt" and r0[2] == "Err":
+                    results.add("error")
+                else:
+                    results.add("?")
+        w.on_visit = on_visit
+        try:
+            w.explore(0, {1: CW.const(start)})
+        except CW.Limit:
+            return None
+        if len(results) != 1 or "?" in results:
+            return None
+        want = next((a for a in anc if ((a if a != "/" else "") + "/.git") in dirs or ((a if a != "/" else "") + "/.hg") in dirs), "error")
+        got = next(iter(results))
+        if got == want:
+            n += 1
+        else:
+            out.viol(rule, "%s|search|model" % rule, ctx.where(rr),
+                     "repository root search started in %s with marker directories %s: the result is %s; expected %s - the nearest ancestor that has a `.git` or a `.hg` directory (with another root every path blockwatch matches, reads and reports changes)" % (
+                         start, sorted(dirs) or "none", got, want))
+            return False
+    return True
+
+
 def run(ctx, out, tier):
     from rules.C12 import check_walkfiles
     check_walkfiles(ctx, out, rule="C15.walkfiles")
@@ -158,7 +238,10 @@ def run(ctx, out, tier):
                     out.viol("C15.root", "C15.root|fs-root", ctx.where(main, t["span"]),
                              "the file-system root derives from [%s]; expected repository_root_path(canonicalize(current_dir()))" % util.origins_text({l for l in labs if l[0] == "call"}, 5))
         rr = ctx.facts.bodies.get("bwbin::repository_root_path")
-        if rr is not None:
+        root_verdict = root_search_model(ctx, out, rr) if rr is not None else None
+        if root_verdict is True:
+            k += 1
+        elif rr is not None and root_verdict is None:
             region = ctx.region(rr)             # with its closures and helpers
             names = set()
             for rb in region:
